@@ -31,6 +31,18 @@ Theorem C12_edges_no_stop : forall f ml t,
 Proof. exact dot_edges_no_stop. Qed.
 Print Assumptions C12_edges_no_stop.
 
+(** what DotExporter draws, exactly, for EVERY filter_, stop and maxlevel: the
+    pairs whose parent is admitted and filtered and whose child is below
+    maxlevel and filtered - the child's stop is not consulted ([edges_dot]) *)
+Theorem C12_edges_exact : forall f stop ml t, dot_edges f stop ml t = edges_dot f stop ml 0 true t.
+Proof. exact dot_edges_exact. Qed.
+Print Assumptions C12_edges_exact.
+(** so no admitted link is ever missing (unguarded) *)
+Theorem C12_no_link_missing : forall f stop ml t e,
+  In e (edges_ann f stop ml 0 true t) -> In e (dot_edges f stop ml t).
+Proof. exact dot_no_link_missing. Qed.
+Print Assumptions C12_no_link_missing.
+
 (** the full edge clause, kept visible *)
 Definition C12_edges_full : Prop :=
   forall f stop ml t, dot_edges f stop ml t = edges_ann f stop ml 0 true t.
